@@ -3,7 +3,10 @@ package checks
 import (
 	"crypto/sha256"
 	"fmt"
+	"io/ioutil"
 	"os"
+	"os/exec"
+	"path/filepath"
 	"sort"
 	"strings"
 	"time"
@@ -607,6 +610,9 @@ func init() {
 		os.Setenv("VERIF_TIER_INTERNAL", c.Tier)
 		cases = nil
 		c.RunSharded("c01")
+		if c.Tier == "thorough" || os.Getenv("VERIF_C01_RACE") != "" {
+			c01RacePass(c)
+		}
 		sites := map[string]interface{}{}
 		for k, v := range c.Cov {
 			if strings.HasPrefix(k, "siteline.") {
@@ -630,5 +636,111 @@ func init() {
 	}
 	Replayers["c01"] = func(c *mc.Ctx, r map[string]interface{}) {
 		c01RunCase(c, strList(r["ops"]), true)
+	}
+}
+
+// ---- free-running pass under the race detector ---------------------------------
+//
+// The fork-join exploration above runs the forked bodies atomically, in every serial
+// order. That is complete only if the bodies do not touch shared data outside their
+// mutex. The cooperative hand-over hides such accesses from a race detector, so the same
+// histories are also executed free-running (real goroutines) by a -race build of the
+// un-rewritten harness. Its reports are recorded in the evidence; they do not decide the
+// check (a race need not change a result), but an empty list is what backs the
+// atomic-bodies assumption on the tree that was checked.
+
+func c01RaceWorker(args []string) int {
+	depth := 2
+	n := 0
+	for _, ops := range c01Cases(depth) {
+		young := ops[0] == "young"
+		hist := ops
+		if young {
+			hist = ops[1:]
+		}
+		in := newC01Inst(young)
+		ok := true
+		for _, op := range hist {
+			if !in.step(op) {
+				ok = false
+				break
+			}
+		}
+		in.w.R.Close()
+		if ok {
+			n++
+		}
+	}
+	// parallel proof mode as well
+	w, _ := fix.ProofWorld(fix.Options{ProofType: "parallel"})
+	in := &c01Inst{w: w}
+	for _, op := range []string{"wreq", "reqs", "rcpts", "mixed"} {
+		in.step(op)
+	}
+	in.w.R.Close()
+	fix.Cleanup()
+	fmt.Printf("RACEPASS histories=%d\n", n)
+	return 0
+}
+
+// c01RacePass builds (if needed) and runs the -race binary; returns the race reports'
+// top frames.
+func c01RacePass(c *mc.Ctx) {
+	root := mc.VerifRoot
+	bin := filepath.Join(root, ".cache", "verif-race")
+	build := exec.Command(filepath.Join(root, "bin", "vbuild"))
+	build.Env = append(os.Environ(), "VERIF_RACE=1", "VERIF_MAPRW=")
+	if out, err := build.CombinedOutput(); err != nil {
+		c.HarnessError("race build failed: " + trunc(string(out)))
+		return
+	}
+	logBase := filepath.Join(fix.ScratchRoot(), "race-log")
+	cmd := exec.Command(bin, "worker", "c01race")
+	cmd.Env = append(os.Environ(), "GORACE=halt_on_error=0 exitcode=0 log_path="+logBase)
+	out, err := cmd.CombinedOutput()
+	if err != nil || !strings.Contains(string(out), "RACEPASS histories=") {
+		c.HarnessError("race pass did not complete: " + trunc(string(out)))
+		return
+	}
+	var hist int
+	fmt.Sscanf(string(out)[strings.Index(string(out), "RACEPASS histories="):], "RACEPASS histories=%d", &hist)
+	c.Set("race_pass_histories", hist)
+	logs, _ := filepath.Glob(logBase + "*")
+	sigs := map[string]int{}
+	for _, l := range logs {
+		data, _ := ioutil.ReadFile(l)
+		for _, rep := range strings.Split(string(data), "WARNING: DATA RACE")[1:] {
+			// first function frame of each of the two accesses
+			var frames []string
+			for _, line := range strings.Split(rep, "\n") {
+				t := strings.TrimSpace(line)
+				if strings.HasPrefix(t, "github.com/") || strings.HasPrefix(t, "runtime.") || strings.HasPrefix(t, "sync.") {
+					if i := strings.Index(t, "("); i > 0 {
+						t = t[:i]
+					}
+					frames = append(frames, t)
+					if len(frames) == 1 || (len(frames) == 2 && frames[1] != frames[0]) {
+						continue
+					}
+				}
+				if strings.HasPrefix(t, "Previous") && len(frames) > 0 {
+					frames = frames[:1]
+				}
+			}
+			if len(frames) > 2 {
+				frames = frames[:2]
+			}
+			sigs[strings.Join(frames, " <-> ")]++
+		}
+	}
+	var list []string
+	for k, v := range sigs {
+		list = append(list, fmt.Sprintf("%s x%d", k, v))
+	}
+	sort.Strings(list)
+	c.Set("race_pass_reports", list)
+	c.Set("race_pass_distinct_reports", len(list))
+	for _, l := range list {
+		fmt.Println("NOTE (not deciding) data race reported by the free-running -race pass:", l)
 	}
 }
